@@ -25,7 +25,7 @@ class C11(framework.PropertyCheck):
             'operator-like symbols; integers in three bases; positional floats; booleans; strings with quote, backslash, newline, tab; nested quote / '
             'quasiquote / unquote / unquote-splice; slices and @ on every operand kind): read -> print -> read must be the identity; every shorthand '
             '(e@k ~s #s e[i] e[h:l] \' ` , ,@ and the three bracket pairs) applied to generated operands is compared with its long form; the printed '
-            'text is also compared with the Lean printer, the read with the Lean reader; non-trivial = the printed text differs from the source text')
+            'text is also compared with the Lean printer, the read with the Lean reader; values built directly (nested lists of strings over a b \\ " n t r blank newline tab, integers, symbols) are printed and read back; non-trivial = the printed text differs from the source text')
     assumptions = ['floats with positional representation only (exponent notation of repr is outside the quantifier)', 'ASCII text']
 
     def cases(self, rng, tier, n):
@@ -47,6 +47,20 @@ class C11(framework.PropertyCheck):
                         'qq': (f'`{a}', f'(quasiquote {a})'), 'unq': (f'`(x ,{a})', None), 'unqs': (f'`(x ,@{a})', None),
                         'brackets': (f'({a} {b})', f'[{a} {b}]', '{' + f'{a} {b}' + '}')}[k]
                 yield {'k': 'short', 'kind': k, 'texts': [t for t in pair if t is not None]}
+            elif i % 7 == 3:
+                # values built directly (not obtained by reading): print -> read must give the value back
+                def sval():
+                    return ''.join(rng.choice('ab\\\\"ntr \n\t0x') for _ in range(rng.randint(0, 8)))
+                def val(d):
+                    r = rng.random()
+                    if d <= 0 or r < 0.5:
+                        return ['s', sval()]
+                    if r < 0.6:
+                        return ['i', rng.randint(-50, 50)]
+                    if r < 0.7:
+                        return ['y', rng.choice(['a', 'foo', 'sig.x', 'x1'])]
+                    return ['l', [val(d - 1) for _ in range(rng.randint(0, 3))]]
+                yield {'k': 'val', 'v': ['l', [val(rng.randint(0, 2)) for _ in range(rng.randint(1, 3))]]}    # a list at top level: a bare string would be taken for source text
             elif i % 7 == 1:
                 # long forms whose operands are prefix forms or shorthands themselves
                 a = gen_reader.join(g.strict(rng.randint(0, 2)))
@@ -57,7 +71,16 @@ class C11(framework.PropertyCheck):
             else:
                 yield {'k': 'rt', 'src': gen_reader.join(g.sexpr(rng.randint(0, 5)))}
 
+    def value(self, v):
+        from wal.ast_defs import Symbol, WList
+        k, x = v
+        return x if k in ('s', 'i') else Symbol(x) if k == 'y' else WList([self.value(e) for e in x])
+
     def steps(self, case):
+        if case['k'] == 'val':
+            from wal.util import wal_str
+            v = self.value(case['v'])
+            return [('print', v), ('read', wal_str(v))]
         if case['k'] == 'rt':
             st = [('read', case['src'])]
             p = printed(case['src'])
@@ -67,6 +90,13 @@ class C11(framework.PropertyCheck):
         return [('read', t) for t in case['texts']]
 
     def oracle(self, case, iobs):
+        if case['k'] == 'val':
+            want = ('ok', wire.canon(self.value(case['v'])))
+            if iobs[0][0] != 'ok':
+                return {'what': 'printing raised', 'value': case['v'], 'got': iobs[0]}
+            if iobs[1] != want:
+                return {'what': 'printed value does not read back as the value', 'value': case['v'], 'printed': iobs[0][1], 'read_back': iobs[1], 'want': want}
+            return None
         if case['k'] == 'rt':
             if iobs[0][0] == 'other':
                 return {'what': 'reader raised an exception other than the parse error', 'text': case['src'], 'got': iobs[0]}
@@ -88,7 +118,7 @@ class C11(framework.PropertyCheck):
         return None
 
     def nontrivial(self, case, iobs):
-        if case['k'] == 'short':
+        if case['k'] in ('short', 'val'):
             return True
         return iobs is not None and len(iobs) > 1 and iobs[1][0] == 'ok' and iobs[1][1] != case['src']
 
